@@ -20,7 +20,8 @@ META = {
         '9999-12-31 computed from the extracted epoch, and the 1900 leap-year '
         'pivot is 60 in both directions; (weekday) the accepted WEEKDAY modes '
         'are 1,2,3,11..17 and equivalent modes agree; (time) TIME and '
-        'HOUR/MINUTE/SECOND use the units 24 h / 1440 min / 86400 s.'),
+        'HOUR/MINUTE/SECOND use the units 24 h / 1440 min / 86400 s.'
+        ' (digits) text converted with int(text, base) has first been restricted to the digits of the base (int also accepts a sign, blanks, underscores and the base prefix).'),
     'not_decided': (
         'The inverse laws themselves over the whole domains (finite '
         'enumerations - a different technique).'),
